@@ -251,7 +251,7 @@ func (c *treeChecker) grammar(n Node, inLink bool) {
 		case HTMLBlockKind:
 			for i := 0; i < b.ChildCount(); i++ {
 				in := b.Child(i).Inline()
-				check(in != nil && (in.Kind() == RawHTMLKind || in.Kind() == IndentKind || in.Kind() == SoftLineBreakKind), "C05.html-child:"+kindName(b.Child(i)))
+				check(in != nil && (in.Kind() == RawHTMLKind || in.Kind() == IndentKind), "C05.html-child:"+kindName(b.Child(i)))
 			}
 		case ThematicBreakKind, ListMarkerKind:
 			check(b.ChildCount() == 0, "C05.leafblock-children")
